@@ -557,7 +557,7 @@ const MAXN: usize = 64;
 #[derive(Clone, Copy)]
 struct Spec {
     ty: u8,
-    behave: u8, // 0 return, 1 panic
+    behave: u8, // 0 return, 1 panic, 2 return after delivering a spurious wake-up to the own exit futex
     disp: u8,   // 0 join, 1 drop now, 2 drop later, 3 keep until the end then join, 4 drop "while finishing" (= 2 for the probe)
     inline: u8, // 1: the disposition is carried out before the next spawn
     cdk: u8,
@@ -651,7 +651,11 @@ fn body<T: Res>(c: Clo) -> T {
             p.add(k).write(sbyte(c.tag ^ 0x5eed, k));
         }
     }
-    delay(c.cdk, c.cda);
+    if c.behave == 2 {
+        spurious_wake(c.i, c.cdk, c.cda);
+    } else {
+        delay(c.cdk, c.cda);
+    }
     black_box(&can);
     ALIVE.fetch_sub(1, SeqCst);
     if c.behave == 1 {
@@ -661,6 +665,56 @@ fn body<T: Res>(c: Clo) -> T {
 }
 
 static CLOSZ: [AtomicU32; MAXN] = [Z32; MAXN];
+/// behave == 2: 1 = a FUTEX_WAKE on the thread's exit futex woke a parked waiter while the word still said
+/// "unfinished" (a spurious wake-up as futex(2) allows), 2 = nobody was parked there, 3 = the address is not available
+static WOKE: [AtomicU32; MAXN] = [Z32; MAXN];
+
+/// Deliver a wake-up on this thread's own clear-child-tid address (the word the joiner waits on) WITHOUT
+/// changing the word, then keep running for a while: futex(2) documents that a wait may return 0 like this
+/// ("callers should always conservatively assume that a return value of 0 can mean a spurious wake-up").
+fn spurious_wake(i: usize, kind: u8, amt: u32) {
+    // the blocks the spawn call of this thread allocated (join state, thread-local block, closure): the exit
+    // futex is a word of one of them. Waking a word nobody waits on does nothing, so every word is tried -
+    // no knowledge of the join state's layout is needed.
+    let mut blocks: [(usize, usize); 8] = [(0, 0); 8];
+    let mut nb = 0;
+    with_book(|b| {
+        for k in 0..b.log_len {
+            let r = b.log[k];
+            if r.spec as usize == i + 1 && r.free_tid == 0 && nb < 8 {
+                blocks[nb] = (r.ptr as usize, (r.size as usize).min(16 * 1024));
+                nb += 1;
+            }
+        }
+    });
+    if nb == 0 {
+        WOKE[i].store(3, SeqCst);
+        return;
+    }
+    delay(kind, amt);
+    let mut w = 2;
+    'o: for _ in 0..40 {
+        for &(p, sz) in blocks[..nb].iter() {
+            let mut off = (4 - (p & 3)) & 3;
+            while off + 4 <= sz {
+                // FUTEX_WAKE = 1 (process-shared key, what the kernel's own exit wake-up uses), then
+                // FUTEX_WAKE | FUTEX_PRIVATE_FLAG = 129: whichever key the joiner waits with
+                for op in [1usize, 129] {
+                    let n = unsafe { sc::syscall!(FUTEX, p + off, op, 1usize, 0usize, 0usize, 0usize) };
+                    if n == 1 {
+                        w = 1;
+                        break 'o;
+                    }
+                }
+                off += 4;
+            }
+        }
+        delay(2, 100_000);
+    }
+    WOKE[i].store(w, SeqCst);
+    // stay alive: a joiner that came back early is ahead of this thread now
+    delay(2, 2_000_000);
+}
 
 fn spawn_t<T: Res>(c: Clo) -> Result<JoinHandle<T>, i32> {
     let f = move || body::<T>(c);
@@ -1044,6 +1098,7 @@ fn run_batch(specs: &[Spec], pipe: (usize, usize)) {
         TID[i].store(0, SeqCst);
         CANARY_ADDR[i].store(0, SeqCst);
         CLOSZ[i].store(0, SeqCst);
+        WOKE[i].store(0, SeqCst);
     }
     MAX_ALIVE.store(0, SeqCst);
     let (lc0, lb0) = with_book(|b| {
@@ -1187,7 +1242,7 @@ fn run_batch(specs: &[Spec], pipe: (usize, usize)) {
         o32(ps[i].spawn_errno as u32);
         o8(ps[i].join_class);
         o8(canary[i]);
-        o8(0);
+        o8(WOKE[i].load(SeqCst) as u8);
         o8(0);
         o32(RUN[i].load(SeqCst));
         o32(TID[i].load(SeqCst));
